@@ -134,6 +134,27 @@ def h_sfloat(hx, p, negative):
     hx.cover("p%d" % p)
 
 
+def h_sfloat_sequence(hx, p):
+    """two signed-float writes in a row (small integer parts, both signs, zero integer part included): the second result depends on its own
+    argument only (a memo keyed on the integer part would lose the sign of -0.x)"""
+    vals = []
+    for t in ("1", "2"):
+        I = hx.int(2, "I" + t)
+        K = hx.int(7 * p, "K" + t)
+        n = I * (128 ** p) + K
+        if hx.flag("neg" + t):
+            hx.assume(n >= 1)
+            n = -n
+        vals.append(hx.dyadic(n, 7 * p))
+    MBXML.write_sfloatvar(vals[0], p)
+    b = MBXML.write_sfloatvar(vals[1], p)
+    (back, idx) = MBXML.read_sfloatvar(b, 0)
+    hx.prove(AND(idx == len(b), back == vals[1]), "write_sfloatvar(x2, %d) right after write_sfloatvar(x1, %d) reads back as x2 (integer parts 0..3, both signs)" % (p, p))
+    (u, idx2) = MBXML.read_ufloatvar(MBXML.write_ufloatvar(abs(vals[1]), p), 0)
+    hx.prove(u == abs(vals[1]), "write_ufloatvar(|x2|, %d) after the two signed writes reads back as |x2|" % p)
+    hx.cover("sequence")
+
+
 class SymDT(datetime):
     """a datetime whose six field properties are supplied by the harness (symbolic in the symbolic run)"""
     _f = None
@@ -202,6 +223,9 @@ def cases(tier, seed):
            Case("write-sequence-sint-same", "h_sint_sequence", dict(same=True), covers=["sequence"], budget_s=600, opts=dict(max_paths=8000), bounds="same 8-bit magnitude twice, signs and negative_zero flags of both calls symbolic"),
            Case("write-sequence-sint-indep", "h_sint_sequence", dict(same=False), covers=["sequence"], budget_s=600, opts=dict(max_paths=8000), bounds="two independent 5-bit magnitudes, signs and negative_zero flags symbolic"),
            Case("write-sequence-uint", "h_uint_sequence", {}, covers=["sequence"], budget_s=600, opts=dict(max_paths=8000), bounds="two independent 9-bit unsigned values written back to back")]
+    for p in (1, 2):
+        out.append(Case("write-sequence-sfloat-p%d" % p, "h_sfloat_sequence", dict(p=p), covers=["sequence"], budget_s=600, opts=dict(max_paths=8000),
+                        bounds="two signed floats x = +-(I + K/128^%d), I < 4, written back to back" % p))
     for p in (1, 2, 3):
         out.append(Case("ufloatvar-p%d" % p, "h_ufloat", dict(p=p), budget_s=600, opts=dict(max_paths=5000), bounds="I < 2^%d, K < 128^%d symbolic" % (min(32, 53 - 7 * p), p)))
         for neg in (False, True):
